@@ -16,6 +16,7 @@ Pipeline of one check:
 import json
 import os
 import re
+import shutil
 import time
 
 import vlib
@@ -56,7 +57,7 @@ TRUSTED = [
 
 ASSUMPTIONS = [
     "interleaving semantics at the granularity of single atomic/close operations under sequentially consistent atomics",
-    "DOMAIN RESTRICTION: the count and every delta are mathematical integers (Coq Z) in model and theorems; Go's int is 64 bit and wraps (4 x Add(1<<62) gives count 0 and closes the channel), so the theorems speak about callers whose running count never leaves the range of int; the harness uses |delta| <= 3",
+    "DOMAIN RESTRICTION: the count and every delta are mathematical integers (Coq Z) in model and theorems; Go's int is 64 bit and wraps (4 x Add(1<<62) gives count 0 and closes the channel), so the theorems speak about callers whose running count never leaves the range of a 64-bit int. The tie rejects any narrower representation (integer conversions other than int()/int64(), fields and atomics of narrow integer types are untranslatable) and the fixed corpus runs Add(1<<31) twice, Add(1<<32), Add(1<<62) on the real code",
     "WaitTimeout/WaitCTX: logical time (the deadline passes after k scheduling attempts of the caller at its select, for every k); runtime timers, contexts and the fairness of Go's select are runtime behaviour exercised by the probes only",
     "client programs: goroutines calling Add(+n)/Add(0)/Add(-n)/Wait on a group made by NewSelectableWaitGroup; schedules are generated so that the conservative lower bound never goes negative (a decrement is issued only after increments covering it have returned)",
 ]
@@ -74,6 +75,21 @@ def prepare(ctx):
     if not xl:
         return None, None, "xlate_conc build failed:\n" + log
     src = os.path.join(repo, "gsync", "selectable_wait_group.go")
+    # the package as the compiler sees it: every non-test file of gsync/ that matches the build
+    # context of the harness build, merged into one file that replaces them in the scratch copy
+    # (code in a sibling file or behind a build constraint is then what is instrumented,
+    # translated and run; a file the build context rejects is dead code and is removed)
+    gdir = os.path.join(repo, "gsync")
+    merged = os.path.join(ctx.scratch, "gsync_merged.go")
+    rc, out = vlib.sh([xl, "-mergepkg", gdir, "-merge", merged, "-tags", "verif,wginstr"], timeout=120)
+    if rc != 0:
+        return None, None, "xlate_conc -mergepkg failed on gsync/:\n" + out[-1500:]
+    m = re.search(r"MERGED files=(\S*) excluded=(\S*)", out)
+    ctx.cov["source_files"] = {"merged": m.group(1).split(",") if m else [], "excluded_by_build_context": [x for x in (m.group(2).split(",") if m else []) if x]}
+    for n in os.listdir(gdir):
+        if n.endswith(".go") and not n.endswith("_test.go"):
+            os.remove(os.path.join(gdir, n))
+    shutil.copy(merged, src)
     ir = os.path.join(ctx.gen, "WGProgGen.v")
     ctx.wg_sites = os.path.join(ctx.scratch, "sites.json")
     ctx.wg_sitemap = os.path.join(ctx.scratch, "sitemap.json")
@@ -146,10 +162,11 @@ def tie(ctx, ir):
                 # Inc / Dec (wrappers of Add) and the deadline selects WaitCTX / WaitTimeout
                 rca, outa = ctx.coq_eval("WGTieAux", "From GT Require Import WGProg2 WGTimed.\nFrom GTgen Require Import WGProgGen2.\n"
                                          "Definition tie_wrappers : gen_wrappers = hand_wrappers := eq_refl.\n"
-                                         "Definition tie_timed : gen_timed = hand_timed := eq_refl.\n", timeout=120)
+                                         "Definition tie_timed : gen_timed = hand_timed := eq_refl.\n"
+                                         "Definition tie_api : gen_api = hand_api := eq_refl.\n", timeout=120)
                 if rca != 0:
                     return False, which, ("Add/Wait/Count pass the simulation check-list, but Inc/Dec are not the one-line "
-                                          "wrappers of Add(+1)/Add(-1) or WaitCTX/WaitTimeout are not `select { case <-deadline: "
+                                          "wrappers of Add(+1)/Add(-1), or the exported surface of the package differs from WGProg2.hand_api (a wrapper type, an extra entry point), or WaitCTX/WaitTimeout are not `select { case <-deadline: "
                                           "return err; case <-wg.Wait(): return nil }` (WGTimed.hand_timed):\n" + outa[-1500:])
                 return True, which, ("wg_sim_ok gen_prog2 gen_sitemap proved (%s): the machine of the theorems is the "
                                      "denotation of the regenerated IR; Print Assumptions closed" % (
@@ -173,10 +190,59 @@ def tie(ctx, ir):
     return False, ("same-sites" if rc3 == 0 else "unknown"), detail2
 
 
-def run_harness(ctx, binp, runs, timeout=3000):
+# budgets of one harness process (cases, MB of recorded steps) and of its address space
+BUDGET = {"quick": (12000, 30), "thorough": (450000, 12000), "widen": (25000, 40)}
+CHILD_VMEM_KB = 12 * 1024 * 1024
+
+
+def limited(cmd):
+    """the command under an address-space limit (a runaway harness must not take the machine down)"""
+    return ["sh", "-c", "ulimit -v %d 2>/dev/null; exec \"$@\"" % CHILD_VMEM_KB, "sh"] + cmd
+
+
+def slim(j, path, offset):
+    """what the plugin needs of every case; the recorded steps stay in the jsonl file and are read
+    back (full) only for the few cases that are reported"""
+    obs = j.pop("obs")
+    lb, ok_dom, calls, rets = 0, True, 0, 0
+    for it in obs:
+        c = it.get("call") or {}
+        d = c.get("d", 0) if c.get("k") == "add" else 0
+        if it["ev"] == "call":
+            calls += 1
+            if d < 0:
+                lb += d
+        if it["ev"] == "ret":
+            rets += 1
+            if d > 0:
+                lb += d
+        ok_dom = ok_dom and lb >= 0
+    ncalls = sum(len(p) for p in j["progs"])
+    j["_src"] = (path, offset)
+    j["_nobs"] = len(obs)
+    j["_indom"] = ok_dom
+    j["_complete"] = rets >= ncalls
+    j["_thash"] = hash(json.dumps([j["progs"], [[o["tid"], o["ev"], o["val"], o["count"], o["closed"], o["site"]] for o in obs]]))
+    return j
+
+
+def full(j):
+    """the case with its recorded steps"""
+    if "obs" in j or "_src" not in j:
+        return j
+    path, off = j["_src"]
+    with open(path) as fh:
+        fh.seek(off)
+        jj = json.loads(fh.readline())
+    jj.update({k: v for k, v in j.items() if k.startswith("_") or k == "kind"})
+    return jj
+
+
+def run_harness(ctx, binp, runs, timeout=3000, budget=None):
     """run the harness once per (tag, [args]); collect the index-aligned packed case terms and
-    JSON cases, and the ENUM lines (schedules enumerated per program) it prints"""
+    slim case records, and the ENUM lines (schedules enumerated per program) it prints"""
     terms, jsons, enums = [], [], []
+    cases, mb = BUDGET[budget or ("quick" if ctx.tier == "quick" else "thorough")]
     for tag, args in runs:
         prefix = os.path.join(ctx.scratch, "cases_%s" % tag)
         sites = getattr(ctx, "wg_sites", None)
@@ -186,12 +252,22 @@ def run_harness(ctx, binp, runs, timeout=3000):
             extra += ["-sitemap", smap]
         if getattr(ctx, "wg_sparse", False):
             extra += ["-sparseobs"]
-        rc, out = vlib.sh([binp, "-seed", str(ctx.seed), "-out", prefix] + extra + [str(a) for a in args],
+        extra += ["-total", str(cases), "-totalmb", str(mb)]
+        rc, out = vlib.sh(limited([binp, "-seed", str(ctx.seed), "-out", prefix] + extra + [str(a) for a in args]),
                           timeout=timeout)
         if rc != 0:
             return terms, jsons, enums, "harness %s failed (rc %d):\n%s" % (tag, rc, out[-3000:])
+        if "BUDGET exhausted" in out:
+            ctx.cov.setdefault("budget_exhausted", []).append(tag)
         t = open(prefix + ".cases").read().splitlines()
-        j = [json.loads(l) for l in open(prefix + ".jsonl").read().splitlines()]
+        j = []
+        with open(prefix + ".jsonl") as fh:
+            while True:
+                off = fh.tell()
+                line = fh.readline()
+                if not line:
+                    break
+                j.append(slim(json.loads(line), prefix + ".jsonl", off))
         if len(t) != len(j):
             return terms, jsons, enums, "harness %s wrote %d terms but %d json cases" % (tag, len(t), len(j))
         terms += t
@@ -293,7 +369,7 @@ def replay_batch(ctx, binp, cands, tag):
 def minimise(ctx, binp, judge_name, j, rounds=8):
     """greedy delta-debugging on the client program and the schedule; every candidate is re-run
     on the real code and re-judged in Coq (code 1 must persist)"""
-    best = j
+    best = j = full(j)
     for phase in ("prog", "sched"):
         for rnd in range(rounds):
             progs = _progs_wo_probe(best)
@@ -344,6 +420,7 @@ def prog_str(progs):
 
 def view(j):
     """human-oriented replay record of a case"""
+    j = full(j)
     steps = []
     for k, it in enumerate(j["obs"]):
         s = "%2d T%d " % (k, it["tid"])
@@ -372,6 +449,7 @@ def view(j):
 
 def features(j, code, pid):
     """shape of a failing input (for known-findings matching)"""
+    j = full(j)
     f = {"kind": "schedule", "code": code, "threads": len(j["progs"]) - 1}
     closed_while_positive = False
     spin = False
@@ -462,13 +540,16 @@ def deadline_probe(ctx, binp):
                       "measured_ms": j["elapsed_ms"], "bound_ms": 2 * j["d_ms"],
                       "answer": ["nil", "the deadline's error", "no answer within 5 d"][j["result"]],
                       "driver": {"zero": "idle group", "positive": "one Inc, never released",
+                                 "cancel": "one Inc, never released; ctx = context.WithTimeout(10 d), cancelled by its owner at d/2",
                                  "rearm": "one Inc, then release + re-arm cycles: Dec (count 0, wait channel closed, the waiter's "
                                           "select wakes), the waiter is held at its next yield point, Inc, the waiter goes on"}[j["scenario"]],
                       "cycles": ["Dec at %d ms%s" % (c["at_ms"], ", waiter held at site %d until the Inc was done" % c["held_at"] if c["held"] else "")
                                  for c in (j.get("cycles") or [])],
                       "measurements": j["attempts"],
                       "what": "the call did not answer within 2 d of its start" if j["scenario"] == "rearm" else
-                              "wrong answer or answer outside [0.8 d, 2 d]" if j["scenario"] == "positive" else "no immediate nil on an idle group",
+                              "wrong answer or answer outside [0.8 d, 2 d]" if j["scenario"] == "positive" else
+                              "the early cancellation of a deadline-carrying context did not end the wait (answer outside [0.4 d, 2 d])" if j["scenario"] == "cancel" else
+                              "no immediate nil on an idle group",
                       "replay_cmd": "harness c01 -mode deadline (./check C02 re-runs it)"})
     ctx.cov["deadline_probe"] = {"cases": len(jsons), "violating": len(found), "with_held_waiter": nt,
                                  "d_ms": 300, "bound": "2 d",
@@ -524,6 +605,7 @@ def run_check(ctx, pid):
     stress_found = []
     if ctx.wg_instrumented:
         t0 = time.time()
+        bad = []
         if quick:
             runs = [("corpus", ["-mode", "corpus"]),
                     ("pb1", ["-mode", "pb", "-pre", 1, "-tmoevery", 7]),
@@ -551,8 +633,13 @@ def run_check(ctx, pid):
                              ["-max", 250] if a[1] == "starve" else [])) for t, a in runs]
         terms, jsons, enums, err = run_harness(ctx, binp, runs)
         if err:
-            ctx.report({"unchecked": "harness run", "detail": err}, {"kind": "harness"}, failing_input=False)
-            return
+            # never end here: the scheduled modes are lost (e.g. a call without any yield point: its
+            # shared-memory operations are in a file or a form the instrumenter did not reach), the
+            # same programs still run free (below) and, for C02, the deadline probe
+            broken.append(("scheduled modes of the harness", err, {"kind": "harness"}))
+            ctx.log("harness: scheduled modes FAILED - falling back to free-running runs of the same programs")
+            terms, jsons, enums = [], [], []
+            ctx.wg_instrumented = False
         # corpus files (minimised past failures of either gsync property) are replayed first
         cands = []
         for d in ("C01", "C02"):
@@ -569,11 +656,12 @@ def run_check(ctx, pid):
                 jsons.insert(0, j)
         ctx.log("harness: %d cases in %.1fs" % (len(terms), time.time() - t0))
         t0 = time.time()
-        bad, nt, err = judge(ctx, judge_name, terms, "cases")
+        bad, nt, err = judge(ctx, judge_name, terms, "cases") if terms else ([], 0, None)
         if err:
-            ctx.report({"unchecked": "in-kernel evaluation of the correspondence", "detail": err},
-                       {"kind": "coq_eval"}, failing_input=False)
-            return
+            # (a judge that runs out of time on very long traces must not end the check either)
+            broken.append(("in-kernel evaluation of the correspondence", err, {"kind": "coq_eval"}))
+            ctx.log("judging FAILED (%s) - falling back to free-running runs" % err.splitlines()[0][:120])
+            bad, nt = [], 0
         ctx.log("judged in Coq (%s): %d cases in %.1fs, %d bad" % (judge_name, len(terms), time.time() - t0, len(bad)))
         fails = [(i, c) for i, c in bad if c == 1]
         diffs = [(i, c) for i, c in bad if c == 2]
@@ -598,9 +686,9 @@ def run_check(ctx, pid):
         ctx.log("an obligation / the correspondence broke without a failing input: widening the schedule search")
         if ctx.wg_instrumented:
             wterms, wjsons, wenums, err = run_harness(ctx, binp, [
-                ("w_pb2", ["-mode", "pb", "-pre", 2, "-tmoevery", 0]),
-                ("w_exh", ["-mode", "exhaustive", "-progs", "2,3,4,12,14", "-max", 20000, "-tmoevery", 0]),
-                ("w_rand", ["-mode", "randprog", "-n", 1500, "-tmoevery", 0])])
+                ("w_pb2", ["-mode", "pb", "-pre", 2, "-max", 3000, "-tmoevery", 0]),
+                ("w_exh", ["-mode", "exhaustive", "-progs", "2,3,4,12,14", "-max", 5000, "-tmoevery", 0]),
+                ("w_rand", ["-mode", "randprog", "-n", 1500, "-tmoevery", 0])], budget="widen")
             if not err:
                 wbad, _, err = judge(ctx, judge_name, wterms, "widen")
                 if not err:
@@ -612,7 +700,8 @@ def run_check(ctx, pid):
                     fails += [(base + i, c) for i, c in wbad if c == 1]
                     diffs += [(base + i, c) for i, c in wbad if c == 2]
         if not fails:
-            stress_found, sinfo = stress_run(ctx, binp, judge_name, 3 if ctx.wg_instrumented else 6, "search")
+            stress_found, sinfo = stress_run(ctx, binp, judge_name, 9 if ctx.wg_instrumented else 20, "search",
+                                             max_traces=1500 if ctx.wg_instrumented else 6000)
             ctx.cov["stress_search"] = sinfo
             ctx.log("free-running stress:", sinfo, "- %d failing" % len(stress_found))
     # 1. failing inputs (verdict 1) first: fewest preemptions / shortest first, minimised; they
@@ -682,30 +771,28 @@ def run_check(ctx, pid):
     nontriv = [j for j in jsons if j["preemptions"] > 0]
     # cases inside the property's domain (the conservative lower bound never negative), recomputed
     # here from the recorded events: the scheduler gates decrements so that ALL cases should be
-    indom = 0
-    for j in jsons:
-        lb, ok_dom = 0, True
-        for it in j["obs"]:
-            c = it.get("call") or {}
-            d = c.get("d", 0) if c.get("k") == "add" else 0
-            if it["ev"] == "call" and d < 0:
-                lb += d
-            if it["ev"] == "ret" and d > 0:
-                lb += d
-            ok_dom = ok_dom and lb >= 0
-        indom += ok_dom
+    indom = sum(1 for j in jsons if j.get("_indom", True))
+    complete = sum(1 for j in jsons if j.get("_complete", True))
+    # vacuity guard: a trace on which calls never return satisfies every monitor; a source on which
+    # most scheduled cases do not run to completion (calls longer than the step budget, a goroutine
+    # that never comes back) has not been checked by them
+    if jsons and ctx.wg_instrumented and complete * 2 < len(jsons):
+        ctx.report({"unchecked": "scheduled modes: in %d of %d cases some call never returned within the step budget "
+                                 "(%d steps per call): the monitors hold vacuously on such prefixes" % (len(jsons) - complete, len(jsons), 200)},
+                   {"kind": "harness"}, failing_input=False)
     if jsons and indom < len(jsons) and ctx.wg_instrumented:
         ctx.report({"unchecked": "generator gating: %d of %d scheduled cases are outside the property's domain (lower bound negative) and were judged 0" % (len(jsons) - indom, len(jsons))},
                    {"kind": "harness"}, failing_input=False)
     probes = [p for j in jsons for p in (j.get("probes") or [])]
     ctx.cov.update({
         "in_domain_cases": indom,
+        "cases_run_to_completion": complete,
         "calls_through_inc_dec": sum(1 for j in jsons for p in j["progs"] for c in p if c.get("via")),
         "rest_probes": {"count": len(probes),
                         "WaitTimeout": hist(["nil", "ErrWGTimeout", "hung", "not called"][p["code"] // 4] for p in probes),
                         "WaitCTX_cancelled_ctx": hist(["nil", "ctx error", "hung", "not called"][p["code"] % 4] for p in probes)},
         "evaluations": len(jsons),
-        "steps_compared": sum(len(j["obs"]) for j in jsons),
+        "steps_compared": sum(j.get("_nobs", len(j.get("obs", []))) for j in jsons),
         "distinct_nontrivial": vlib.distinct_count([[j["progs"], j["sched"]] for j in nontriv]),
         "nontrivial_in_coq": nt,
         "rule": "case = (client program, schedule) replayed on the instrumented real code; non-trivial = the "
@@ -719,14 +806,14 @@ def run_check(ctx, pid):
         "threads_histogram": hist(len(j["progs"]) - 1 for j in jsons),
         "timeout_probes": hist({0: "nil", 1: "ErrWGTimeout", 2: "hung", 3: "not probed"}[j["tmo"]] for j in jsons),
         "enumerations": enums,
-        "distinct_traces": vlib.distinct_count([[j["progs"], [[o["tid"], o["ev"], o["val"], o["count"], o["closed"], o["site"]] for o in j["obs"]]] for j in jsons]),
+        "distinct_traces": len({j.get("_thash", id(j)) for j in jsons}),
         "exhaustive": (not quick),
         "exhaustive_note": "thorough: every schedule of every 2-goroutine catalogue program (2,3,4,7,8,12-16; 12-14 exercise Add(0), 15-16 Add(+3)/Add(-3)/Add(-2)) and of program 0, every <=2-preemption schedule of the whole catalogue (3 and 4 goroutines), <=3 preemptions for programs 0,1,5; quick: every <=1-preemption schedule of the catalogue, <=2 for five programs, plus random schedules and random programs; counts per program in `enumerations` (complete = the enumeration finished below its cap)",
         "samples": [view(j) for j in jsons[:1] + jsons[len(jsons) // 2:len(jsons) // 2 + 1]],
         "violating_cases": len(fails) + len(stress_found), "model_differences": len(diffs),
     })
-    ctx.log("correspondence: %d cases, %d steps, %d violate the monitor, %d differ from the model" % (
-        len(jsons), ctx.cov["steps_compared"], len(fails), len(diffs)))
+    ctx.log("correspondence: %d cases (%d run to completion), %d steps, %d violate the monitor, %d differ from the model" % (
+        len(jsons), complete, ctx.cov["steps_compared"], len(fails), len(diffs)))
 
 
 def stress(ctx):
